@@ -5,7 +5,7 @@ From GT Require Import Base.Sexp Base.UTree Spec.Obs Spec.NewickSpec Model.Newic
      Proofs.NewickCanon Proofs.NewickTheorem
      Proofs.NexusLex Proofs.NexusWords Proofs.NexusRoundTrip Proofs.NexusRoundTripMain Proofs.NexusRoundTripC01
      Proofs.NexusRoundTripTr Proofs.NexusRename Proofs.NexusNewickText Proofs.NexusDomain Proofs.NexusProperty
-     Proofs.NexusTranslate.
+     Proofs.NexusTranslate Proofs.NexusPrinted.
 Import ListNotations.
 Local Close Scope Q_scope.
 Local Open Scope string_scope.
@@ -298,7 +298,14 @@ Section Property.
       unfold tip_names. rewrite tips_filter. apply in_map. apply filter_In. auto.
     Qed.
     (** the printed tree is inside C01's quantifier (tip names are decimal numbers now) *)
-    Hypothesis Wr : wfN numeric numok (rename_nodes mi t) = true.
+    Lemma Wr : wfN numeric numok (rename_nodes mi t) = true.
+    Proof.
+      apply wfN_rename; [exact W|]. apply Forall_forall. intros x Hx.
+      pose proof (proj2 (node_facts x Hx)) as K. unfold node_ok in K. unfold node_keep.
+      destruct (is_tip x) eqn:Tx; [|exact K].
+      destruct K as [k [E _]]. split; [exists k; exact E|].
+      apply tip_name_nonempty. unfold tip_names. rewrite tips_filter. apply in_map. apply filter_In. auto.
+    Qed.
 
     Definition back (x : utree) : utree := rename_nodes tbl (canon_root fmt parse_num x).
 
@@ -339,6 +346,26 @@ Section Final.
   Hypothesis SC : strconv_ok fmt numeric parse_num numok.
   Hypothesis fmt_wchar : forall x, numok x = true -> all_chars wchar (fmt x) = true.
 
+  Lemma Forall2_impl_in : forall {A B} (P Q : A -> B -> Prop) (l : list A) (r : list B),
+      Forall2 P l r -> (forall a b, In a l -> In b r -> P a b -> Q a b) -> Forall2 Q l r.
+  Proof.
+    intros A B P Q l r H. induction H as [|a b l' r' Hab Hr IH]; intros G; [constructor|].
+    constructor; [apply G; [left; reflexivity|left; reflexivity|exact Hab]|].
+    apply IH. intros a' b' Ha Hb. apply G; right; assumption.
+  Qed.
+
+  Lemma Forall2_weaken : forall {A B} (P Q : A -> B -> Prop) (l : list A) (r : list B),
+      (forall a b, P a b -> Q a b) -> Forall2 P l r -> Forall2 Q l r.
+  Proof. intros A B P Q l r G H. induction H; constructor; auto. Qed.
+
+  Lemma Forall2_right : forall {A B} (P : A -> B -> Prop) (Q : B -> Prop) (l : list A) (r : list B),
+      Forall2 P l r -> (forall a b, P a b -> Q b) -> Forall Q r.
+  Proof. intros A B P Q l r H G. induction H; constructor; eauto. Qed.
+
+  Lemma Forall2_map_right : forall {A B C} (f : B -> C) (P : A -> C -> Prop) (l : list A) (r : list B),
+      Forall2 (fun a b => P a (f b)) l r -> Forall2 P l (map f r).
+  Proof. intros A B C f P l r H. induction H; simpl; constructor; auto. Qed.
+
   Lemma combine_names : forall (l r : list (nat * utree)) (q : utree -> utree),
       Forall2 (fun it x => fst x = fst it) l r ->
       map (fun it => ("tree" ++ itoa (fst it), q (snd it))) r =
@@ -351,23 +378,22 @@ Section Final.
   Theorem nexus_round_trip_translate_domain : forall (l : list (nat * utree)),
       (Z.of_nat (length (final_map l [])) < two63)%Z ->
       Forall (fun it => in_domain_tr numeric numok (labels_of l) (snd it)) l ->
-      Forall (fun r => wfN numeric numok (snd r) = true) (rendered [] l) ->
       exists ts',
         nexus_parse (np_newick numeric parse_num) (write_nexus (Newick.write fmt) true l) =
         Nexus.POk (mkDoc (combine (map (fun it => "tree" ++ itoa (fst it)) l) ts') false) /\
         Forall2 (fun it t' => rose_eqb (rose_of t') (rose_of (snd it)) = true) l ts'.
   Proof.
-    intros l Hn HD HW.
+    intros l Hn HD.
     set (q := back fmt parse_num l).
     exists (map (fun x => q (snd x)) (rendered [] l)).
-    pose proof (rendered_spec tt l []) as RS.
+    pose proof (rendered_spec l []) as RS.
     (* per tree facts *)
     assert (F : Forall2 (fun it r => fst r = fst it /\
                                      tree_ok_tr (Newick.write fmt) (np_newick numeric parse_num) (labels_of l)
                                                 (tr_table (pairs_of l) []) (canon_root fmt parse_num) q (snd r) /\
                                      rose_eqb (rose_of (q (snd r))) (rose_of (snd it)) = true)
                         l (rendered [] l)).
-    { rewrite Forall_forall in HD. rewrite Forall_forall in HW.
+    { rewrite Forall_forall in HD.
       assert (G : forall it r, In it l -> In r (rendered [] l) ->
                   (fst r = fst it /\ exists mi ext, final_map l [] = (mi ++ ext)%list /\
                      (forall n, In n (all_tip_names (snd it)) -> In n (map fst mi)) /\
@@ -378,24 +404,18 @@ Section Final.
                   rose_eqb (rose_of (q (snd r))) (rose_of (snd it)) = true).
       { intros it r Hi Hr [E [mi [ext [Hm [Ht Hs]]]]]. split; [exact E|].
         pose proof (HD it Hi) as Di.
-        pose proof (printed_is_renamed fmt numeric parse_num numok fmt_wchar l (snd it) mi ext Hm Ht Di) as PR.
-        assert (Wr : wfN numeric numok (rename_nodes mi (snd it)) = true).
-        { rewrite <- PR, <- Hs. apply HW. exact Hr. }
+        assert (PR : renamed true mi (snd it) = rename_nodes mi (snd it))
+          by (eapply printed_is_renamed; eassumption).
         rewrite Hs, PR.
-        exact (printed_tree_ok fmt numeric parse_num numok SC fmt_wchar l Hn (snd it) mi ext Hm Ht Di Wr). }
-      clear - RS G. revert G. generalize (rendered [] l) at 1 3. generalize l at 1 3.
-      intros l0 r0 G. revert RS. generalize (final_map l []). intros fm RS.
-      induction RS as [|it r l' r' Hx Hr IH]; [constructor|].
-      constructor.
-      - apply G; [left; reflexivity|left; reflexivity|exact Hx].
-      - apply IH. intros it' r'' Hi Hr'. apply G; right; assumption. }
+        eapply printed_tree_ok; eassumption. }
+      exact (Forall2_impl_in _ _ _ _ RS G). }
     split.
     - rewrite (nexus_round_trip_translate (Newick.write fmt) (np_newick numeric parse_num) l (canon_root fmt parse_num) q Hn).
       + f_equal. f_equal. apply combine_names.
-        clear - F. induction F as [|it r l' r' [E _] Hr IH]; constructor; assumption.
+        eapply Forall2_weaken; [|exact F]. intros a b [E _]. exact E.
       + apply (labels_ok_of_trees fmt). eapply Forall_impl; [|exact HD].
         intros it [[W [P _]] _]. exact (nx_of_wfN fmt numeric numok fmt_wchar _ W P).
-      + clear - F. induction F as [|it r l' r' [_ [T _]] Hr IH]; constructor; assumption.
-    - clear - F. induction F as [|it r l' r' [_ [_ R]] Hr IH]; simpl; constructor; assumption.
+      + eapply Forall2_right; [exact F|]. intros a b [_ [T _]]. exact T.
+    - apply Forall2_map_right. eapply Forall2_weaken; [|exact F]. intros a b [_ [_ R]]. exact R.
   Qed.
 End Final.
